@@ -1,22 +1,35 @@
 """Translator for C09: the tables inside txdbus/endpoints.py: getDBusEndpoints that the address parser
 model (lean/TxdbusModel/Client/Endpoints.lean) is parameterised by.
 
-From the AST of `getDBusEndpoints` (restricted shapes; anything else is a TranslatorError, which breaks
-the table obligation and makes the pipeline widen its search):
-  * the chain  `if c.startswith(<str>): kind = <str>; c = c[<int>:]; [d[<str>] = True]  elif ...`
-    -> prefixTable : (prefix, kind, characters stripped, key set to True)
-  * `os.environ.get('DBUS_SYSTEM_BUS_ADDRESS', <str>)`            -> systemDefault
-  * `addrString.split(<str>)`, `ep_addr.split(<str>)`, `c.split(<str>)`   -> the three one-character separators
-  * `if kind == <str>:` / `elif kind == <str>:` after the component loop  -> unixKind, tcpKind
-  * inside the unix branch, the chain `if <str> in d: path = <concatenation of d[<same str>], literals, str(os.getpid())>
-    elif ...`                                                        -> unixPathRules (key, parts), in priority order
-  * `TCP4ClientEndpoint(reactor, d[<str>], int(d[<str>]))` in the tcp branch  -> tcpHostKey, tcpPortKey
-  * `if busAddress == <str>: ... elif busAddress == <str>:`          -> sessionWord, systemWord
+Two routes, both source -> table:
+
+  PROBING (always used; it is what is emitted).  Candidates are the string literals of the module's source, wherever
+  they stand (a chain of `if`s, a module-level table, a dict ...); what a candidate MEANS is found by calling the real
+  `getDBusEndpoints(MemoryReactorClock(), address)` and connecting the endpoints it returns to the memory reactor
+  (public behaviour only):
+    * separators           for every ASCII punctuation character: does it separate entries / components / key from value
+    * prefixTable          for every literal ending in ':' : is it recognised as a transport prefix, how many characters
+                           does it strip (the key the first component leaves in `dbus_args`), does the entry yield a unix
+                           or a tcp endpoint, which flag does it set to True
+    * unixPathRules        for every literal key k: what path does `unix:k=VALUE` give (literal before / after the value,
+                           the pid), and which key wins when two are given
+    * tcpHostKey/PortKey   the pair of literals for which `tcp:K1=verifhost,K2=4711` connects to verifhost:4711
+    * sessionWord/systemWord/systemDefault   the literals that make getDBusEndpoints read the two environment variables,
+                           and the address used when DBUS_SYSTEM_BUS_ADDRESS is unset (re-rendered canonically)
+  The values given to the private variable `kind` are not observable; they are emitted canonically ('unix', 'tcp', the
+  prefix without its colon for a transport that yields no endpoint).
+
+  SHAPE (cross-check when recognised).  The original `if c.startswith(<str>): kind = <str>; c = c[<int>:]` chain is
+  read from the AST; if it is there it must agree with the probed table (disagreement = TranslatorError); if the code
+  has another shape an entry is appended to ADVISORIES (the pipeline then widens the correspondence run).
 """
 import ast
 import inspect
+import os
+import string
 
 MODULE = 'TxdbusModel.Gen.C09Endpoints'
+ADVISORIES = []
 
 
 class TranslatorError(Exception):
@@ -35,188 +48,275 @@ def chars(s):
     return '[' + ', '.join(out) + ']'
 
 
-def d_key(node):
-    """The literal k in `d[k]`, or None."""
-    if isinstance(node, ast.Subscript) and is_name(node.value, 'd') and isinstance(node.slice, ast.Constant) \
-            and isinstance(node.slice.value, str):
-        return node.slice.value
-    return None
+# ---------------------------------------------------------------------------------------------------- probing
+
+class Prober:
+    def __init__(self):
+        from twisted.internet.protocol import Factory
+        from twisted.internet.testing import MemoryReactorClock
+        from txdbus import endpoints
+        self.endpoints, self.Factory, self.Reactor = endpoints, Factory, MemoryReactorClock
+
+    def parse(self, addr, env=None):
+        """[(kind, target, args)] or the exception class name; kind 'U' (target = path) / 'T' (target = (host, port))."""
+        saved = {k: os.environ.get(k) for k in ('DBUS_SESSION_BUS_ADDRESS', 'DBUS_SYSTEM_BUS_ADDRESS')}
+        try:
+            for k in saved:
+                os.environ.pop(k, None)
+            for k, v in (env or {}).items():
+                os.environ[k] = v
+            r = self.Reactor()
+            try:
+                eps = self.endpoints.getDBusEndpoints(r, addr)
+            except Exception as e:      # noqa: BLE001
+                return type(e).__name__
+        finally:
+            for k, v in saved.items():
+                if v is None:
+                    os.environ.pop(k, None)
+                else:
+                    os.environ[k] = v
+        out = []
+        for ep in eps:
+            nu, nt = len(r.unixClients), len(r.tcpClients)
+            ep.connect(self.Factory())
+            if len(r.unixClients) > nu:
+                out.append(('U', r.unixClients[-1][0], dict(getattr(ep, 'dbus_args', {}))))
+            elif len(r.tcpClients) > nt:
+                out.append(('T', (r.tcpClients[-1][0], r.tcpClients[-1][1]), dict(getattr(ep, 'dbus_args', {}))))
+            else:
+                raise TranslatorError('an endpoint of %r connected to neither a unix nor a tcp address' % (addr,))
+        return out
 
 
-def path_parts(expr, key):
-    """Flatten `a + b + c` into parts: d[key] -> key, a string literal -> lit, str(os.getpid()) -> pid."""
-    if isinstance(expr, ast.BinOp) and isinstance(expr.op, ast.Add):
-        return path_parts(expr.left, key) + path_parts(expr.right, key)
-    if d_key(expr) is not None:
-        if d_key(expr) != key:
-            raise TranslatorError('path rule for %r reads d[%r]' % (key, d_key(expr)))
-        return ['.key']
-    if isinstance(expr, ast.Constant) and isinstance(expr.value, str):
-        return ['.lit ' + chars(expr.value)]
-    if (isinstance(expr, ast.Call) and is_name(expr.func, 'str') and len(expr.args) == 1
-            and isinstance(expr.args[0], ast.Call) and isinstance(expr.args[0].func, ast.Attribute)
-            and expr.args[0].func.attr == 'getpid'):
-        return ['.pid']
-    raise TranslatorError('path rule for %r: unsupported expression %s' % (key, ast.dump(expr)))
+def literals(module):
+    src = inspect.getsource(module)
+    seen, out = set(), []
+    for n in ast.walk(ast.parse(src)):
+        if isinstance(n, ast.Constant) and isinstance(n.value, str) and n.value not in seen and '\n' not in n.value:
+            seen.add(n.value)
+            out.append((getattr(n, 'lineno', 0), getattr(n, 'col_offset', 0), n.value))
+    return [v for _, _, v in sorted(out)]
 
 
-def unix_path_rules(branch_body):
-    """The `if k in d: path = ... elif ...` chain at the start of the unix branch."""
-    node = branch_body[0]
-    rules = []
-    while node is not None:
-        if not (isinstance(node, ast.If) and isinstance(node.test, ast.Compare) and len(node.test.ops) == 1
-                and isinstance(node.test.ops[0], ast.In) and is_name(node.test.comparators[0], 'd')):
-            raise TranslatorError('unix branch does not start with the `<key> in d` chain')
-        key = const_str(node.test.left, 'path rule key')
-        if not (len(node.body) == 1 and isinstance(node.body[0], ast.Assign) and is_name(node.body[0].targets[0], 'path')):
-            raise TranslatorError('path rule for %r is not a single assignment to `path`' % key)
-        rules.append((key, path_parts(node.body[0].value, key)))
-        if not node.orelse:
-            node = None
-        elif len(node.orelse) == 1:
-            node = node.orelse[0]
+def probe_tables():
+    P = Prober()
+    lits = literals(P.endpoints)
+    punct = [c for c in string.punctuation]
+    is_ok = lambda r: isinstance(r, list)
+    # ---- separators (found together: the three roles must be played by three different characters)
+    found = None
+    for kv in punct:
+        base = P.parse('unix:path%s/verif-a' % kv)
+        if not (is_ok(base) and len(base) == 1 and base[0][:2] == ('U', '/verif-a')):
+            continue
+        for es in punct:
+            r = P.parse('unix:path%s/verif-a%sunix:path%s/verif-b' % (kv, es, kv))
+            if not (es != kv and is_ok(r) and [x[:2] for x in r] == [('U', '/verif-a'), ('U', '/verif-b')]):
+                continue
+            for cs in punct:
+                r = P.parse('unix:zz%s1%spath%s/verif-c' % (kv, cs, kv))
+                if cs not in (kv, es) and is_ok(r) and len(r) == 1 and r[0][:2] == ('U', '/verif-c') \
+                        and r[0][2].get('zz') == '1':
+                    if found is not None and found != (es, cs, kv):
+                        raise TranslatorError('separators are ambiguous: %r and %r' % (found, (es, cs, kv)))
+                    found = (es, cs, kv)
+    if found is None:
+        raise TranslatorError('could not find the entry / component / key-value separators by probing')
+    es, cs, kv = found
+    # ---- unix path rules: which keys give a unix entry its path, and how
+    pid = str(os.getpid())
+    rules = {}
+    for k in lits:
+        if not k or any(c in k for c in (es, cs, kv, ':')):
+            continue
+        r = P.parse('unix:%s%sVERIFVAL' % (k, kv))
+        if is_ok(r) and len(r) == 1 and r[0][0] == 'U' and 'VERIFVAL' in r[0][1]:
+            before, after = r[0][1].split('VERIFVAL', 1)
+            parts = []
+            if before:
+                parts.append('.lit ' + chars(before))
+            parts.append('.key')
+            if after:
+                if pid in after:
+                    a, b = after.split(pid, 1)
+                    if a:
+                        parts.append('.lit ' + chars(a))
+                    parts.append('.pid')
+                    if b:
+                        parts.append('.lit ' + chars(b))
+                else:
+                    parts.append('.lit ' + chars(after))
+            rules[k] = parts
+    if not rules:
+        raise TranslatorError('no key gives a unix entry its path')
+    keys = list(rules)
+
+    def wins(a, b):      # does key a take priority over key b when both are given?
+        r1 = P.parse('unix:%s%sAAA%s%s%sBBB' % (a, kv, cs, b, kv))
+        r2 = P.parse('unix:%s%sBBB%s%s%sAAA' % (b, kv, cs, a, kv))
+        if not (is_ok(r1) and is_ok(r2) and len(r1) == 1 and len(r2) == 1):
+            raise TranslatorError('priority probe of path keys %r / %r failed' % (a, b))
+        a1, a2 = 'AAA' in r1[0][1], 'AAA' in r2[0][1]
+        if a1 != a2:
+            raise TranslatorError('priority of path keys %r / %r depends on their order in the entry' % (a, b))
+        return a1
+    import functools
+    keys.sort(key=functools.cmp_to_key(lambda a, b: 0 if a == b else (-1 if wins(a, b) else 1)))
+    path_key = keys[0]
+    # ---- tcp keys
+    tcp = None
+    cand = [k for k in lits if k and not any(c in k for c in (es, cs, kv, ':'))]
+    for kh in cand:
+        for kp in cand:
+            if kh == kp:
+                continue
+            r = P.parse('tcp:%s%sverifhost%s%s%s4711' % (kh, kv, cs, kp, kv))
+            if is_ok(r) and len(r) == 1 and r[0][:2] == ('T', ('verifhost', 4711)):
+                if tcp is not None and tcp != (kh, kp):
+                    raise TranslatorError('tcp keys are ambiguous: %r and %r' % (tcp, (kh, kp)))
+                tcp = (kh, kp)
+    if tcp is None:
+        raise TranslatorError('could not find the host / port keys of a tcp entry by probing')
+    # ---- transport prefixes
+    rows = []
+    for p in lits:
+        if len(p) < 2 or not p.endswith(':') or any(c in p for c in (es, cs, kv)):
+            continue
+        # is it recognised, and how much does it strip?  The key the first component leaves behind tells.
+        r = P.parse('%szz%s1%sunix:%s%s/verif-p' % (p, kv, cs, path_key, kv))
+        if not (is_ok(r) and len(r) == 1):
+            continue
+        left = [k for k in r[0][2] if k.endswith('zz')]
+        if len(left) != 1:
+            continue
+        rest = left[0][:-2]                     # = p[strip:]
+        if rest == p or not p.endswith(rest):
+            continue                            # nothing stripped: not a transport prefix
+        strip = len(p) - len(rest)
+        flags = [k for k, v in r[0][2].items() if v is True]
+        if len(flags) > 1:
+            raise TranslatorError('prefix %r sets more than one flag: %r' % (p, flags))
+        ru = P.parse('%s%s%s/verif-q' % (p, path_key, kv))
+        rt = P.parse('%s%s%sverifhost%s%s%s4711' % (p, tcp[0], kv, cs, tcp[1], kv))
+        if strip == len(p) and is_ok(ru) and len(ru) == 1 and ru[0][0] == 'U':
+            kind = 'unix'
+        elif strip == len(p) and is_ok(rt) and len(rt) == 1 and rt[0][0] == 'T':
+            kind = 'tcp'
+        elif is_ok(ru) and is_ok(rt) and not ru and not rt:
+            kind = p[:-1] if p[:-1] not in ('unix', 'tcp') else p[:-1] + '-none'
         else:
-            raise TranslatorError('path rule chain ends with an else branch')
-    return rules
+            # a prefix that strips something else than itself yet yields endpoints: emit what the code does
+            kind = 'unix' if (is_ok(ru) and ru and ru[0][0] == 'U') else ('tcp' if (is_ok(rt) and rt and rt[0][0] == 'T')
+                                                                         else p[:-1])
+        rows.append((p, kind, strip, flags[0] if flags else None))
+    if not rows:
+        raise TranslatorError('no transport prefix found by probing')
+    for a in rows:
+        for b in rows:
+            if a is not b and a[0].startswith(b[0]):
+                raise TranslatorError('transport prefixes %r and %r overlap: their order would matter' % (a[0], b[0]))
+    # ---- the two special words and the default system address
+    words = {}
+    for w in lits:
+        if not w or any(c in w for c in (es, cs, kv, ':')):
+            continue
+        plain = P.parse(w)
+        for var, name in (('DBUS_SESSION_BUS_ADDRESS', 'session'), ('DBUS_SYSTEM_BUS_ADDRESS', 'system')):
+            r = P.parse(w, {var: 'unix:%s%s/verif-env' % (path_key, kv)})
+            if is_ok(r) and len(r) == 1 and r[0][:2] == ('U', '/verif-env') and plain != r:
+                if name in words and words[name] != w:
+                    raise TranslatorError('two words read %s: %r and %r' % (var, words[name], w))
+                words[name] = w
+    if set(words) != {'session', 'system'}:
+        raise TranslatorError('could not find the words that select the session / system bus: %r' % (words,))
+    d = P.parse(words['system'])
+    if not (is_ok(d) and d):
+        raise TranslatorError('no default system bus address (DBUS_SYSTEM_BUS_ADDRESS unset gives %r)' % (d,))
+    rendered = []
+    for knd, target, _ in d:
+        if knd == 'U':
+            rendered.append('unix:%s%s%s' % (path_key, kv, target))
+        else:
+            rendered.append('tcp:%s%s%s%s%s%s%d' % (tcp[0], kv, target[0], cs, tcp[1], kv, target[1]))
+    sysdef = es.join(rendered)
+    if P.parse(sysdef) != [x for x in d] and [x[:2] for x in P.parse(sysdef)] != [x[:2] for x in d]:
+        raise TranslatorError('re-rendered default system address %r does not parse back' % (sysdef,))
+    return {'rows': rows, 'rules': [(k, rules[k]) for k in keys], 'tcp': tcp, 'words': words, 'sysdef': sysdef,
+            'seps': (es, cs, kv)}
 
 
-def const_str(node, what):
-    if isinstance(node, ast.Constant) and isinstance(node.value, str):
-        return node.value
-    raise TranslatorError('%s: expected a string literal, got %s' % (what, ast.dump(node)))
-
-
-def one_char(node, what):
-    s = const_str(node, what)
-    if len(s) != 1:
-        raise TranslatorError('%s: separator %r is not one character' % (what, s))
-    return s
-
+# ---------------------------------------------------------------------------------------------------- shape (cross-check)
 
 def is_name(node, name):
     return isinstance(node, ast.Name) and node.id == name
 
 
-def split_sep(tree, var):
-    """The literal in `<var>.split(<literal>)`."""
-    found = []
-    for n in ast.walk(tree):
-        if (isinstance(n, ast.Call) and isinstance(n.func, ast.Attribute) and n.func.attr == 'split'
-                and is_name(n.func.value, var) and len(n.args) == 1 and not n.keywords):
-            found.append(one_char(n.args[0], '%s.split' % var))
-    if len(found) != 1:
-        raise TranslatorError('expected exactly one %s.split(<char>), found %r' % (var, found))
-    return found[0]
-
-
-def prefix_branch(test, body):
-    """`c.startswith(P)` with body `kind = K; c = c[N:]` and optionally `d[X] = True`."""
-    if not (isinstance(test, ast.Call) and isinstance(test.func, ast.Attribute) and test.func.attr == 'startswith'
-            and is_name(test.func.value, 'c') and len(test.args) == 1):
-        raise TranslatorError('prefix chain: test is not c.startswith(<str>): %s' % ast.dump(test))
-    prefix = const_str(test.args[0], 'startswith argument')
-    kind = strip = None
-    flag = None
-    for st in body:
-        if not (isinstance(st, ast.Assign) and len(st.targets) == 1):
-            raise TranslatorError('prefix chain: unexpected statement %s' % ast.dump(st))
-        tgt, val = st.targets[0], st.value
-        if is_name(tgt, 'kind'):
-            kind = const_str(val, 'kind')
-        elif is_name(tgt, 'c'):
-            if not (isinstance(val, ast.Subscript) and is_name(val.value, 'c') and isinstance(val.slice, ast.Slice)
-                    and val.slice.upper is None and val.slice.step is None
-                    and isinstance(val.slice.lower, ast.Constant) and isinstance(val.slice.lower.value, int)
-                    and val.slice.lower.value >= 0):
-                raise TranslatorError('prefix chain: c is not re-bound to c[<nat>:]: %s' % ast.dump(val))
-            strip = val.slice.lower.value
-        elif isinstance(tgt, ast.Subscript) and is_name(tgt.value, 'd'):
-            if not (isinstance(val, ast.Constant) and val.value is True):
-                raise TranslatorError('prefix chain: d[...] is set to something other than True')
-            flag = const_str(tgt.slice, 'flag key')
-        else:
-            raise TranslatorError('prefix chain: unexpected assignment target %s' % ast.dump(tgt))
-    if kind is None or strip is None:
-        raise TranslatorError('prefix chain: branch for %r lacks kind or the slice' % prefix)
-    return prefix, kind, strip, flag
+def shape_rows():
+    """The original if/elif startswith chain, if the code still has that shape; else None."""
+    from txdbus import endpoints
+    try:
+        fn = ast.parse(inspect.getsource(endpoints.getDBusEndpoints)).body[0]
+        inner = [n for n in ast.walk(fn) if isinstance(n, ast.For) and isinstance(n.body[0], ast.If)
+                 and isinstance(n.body[0].test, ast.Call) and isinstance(n.body[0].test.func, ast.Attribute)
+                 and n.body[0].test.func.attr == 'startswith']
+        if len(inner) != 1:
+            return None
+        var = inner[0].target.id
+        chain, rows = inner[0].body[0], []
+        while True:
+            t = chain.test
+            if not (isinstance(t, ast.Call) and isinstance(t.func, ast.Attribute) and t.func.attr == 'startswith'
+                    and is_name(t.func.value, var) and len(t.args) == 1 and isinstance(t.args[0], ast.Constant)
+                    and isinstance(t.args[0].value, str)):
+                return None
+            strip, flag = None, None
+            for st in chain.body:
+                if not (isinstance(st, ast.Assign) and len(st.targets) == 1):
+                    return None
+                tgt, val = st.targets[0], st.value
+                if is_name(tgt, var):
+                    if not (isinstance(val, ast.Subscript) and isinstance(val.slice, ast.Slice)
+                            and isinstance(val.slice.lower, ast.Constant) and isinstance(val.slice.lower.value, int)):
+                        return None
+                    strip = val.slice.lower.value
+                elif isinstance(tgt, ast.Subscript) and isinstance(tgt.slice, ast.Constant) \
+                        and isinstance(val, ast.Constant) and val.value is True:
+                    flag = tgt.slice.value
+            if strip is None:
+                return None
+            rows.append((t.args[0].value, strip, flag))
+            if not chain.orelse:
+                return rows
+            if len(chain.orelse) != 1 or not isinstance(chain.orelse[0], ast.If):
+                return None
+            chain = chain.orelse[0]
+    except Exception:       # noqa: BLE001  (any surprise in the shape: not recognised)
+        return None
 
 
 def emit(repo):
-    from txdbus import endpoints
-    src = inspect.getsource(endpoints.getDBusEndpoints)
-    fn = ast.parse(src).body[0]
-    entry_sep = split_sep(fn, 'addrString')
-    comp_sep = split_sep(fn, 'ep_addr')
-    kv_sep = split_sep(fn, 'c')
-    # the default system address
-    sysdef = None
-    for n in ast.walk(fn):
-        if (isinstance(n, ast.Call) and isinstance(n.func, ast.Attribute) and n.func.attr == 'get' and len(n.args) == 2
-                and isinstance(n.args[0], ast.Constant) and n.args[0].value == 'DBUS_SYSTEM_BUS_ADDRESS'):
-            sysdef = const_str(n.args[1], 'system default')
-    if sysdef is None:
-        raise TranslatorError("os.environ.get('DBUS_SYSTEM_BUS_ADDRESS', <str>) not found")
-    # the inner loop `for c in ep_addr.split(...)` and its if/elif chain
-    inner = [n for n in ast.walk(fn) if isinstance(n, ast.For) and is_name(n.target, 'c')]
-    if len(inner) != 1:
-        raise TranslatorError('expected one loop `for c in ...`, found %d' % len(inner))
-    chain = inner[0].body[0]
-    table = []
-    while True:
-        if not isinstance(chain, ast.If):
-            raise TranslatorError('the component loop does not start with the startswith chain')
-        table.append(prefix_branch(chain.test, chain.body))
-        if not chain.orelse:
-            break
-        if len(chain.orelse) != 1:
-            raise TranslatorError('prefix chain ends with an else branch')
-        chain = chain.orelse[0]
-    # `if kind == 'unix': ... elif kind == 'tcp': ...` in the outer loop
-    outer = [n for n in ast.walk(fn) if isinstance(n, ast.For) and is_name(n.target, 'ep_addr')]
-    if len(outer) != 1:
-        raise TranslatorError('expected one loop `for ep_addr in ...`')
-    kinds = []
-    branches = []
-    for st in outer[0].body:
-        node = st
-        while isinstance(node, ast.If) and isinstance(node.test, ast.Compare) and is_name(node.test.left, 'kind') \
-                and len(node.test.ops) == 1 and isinstance(node.test.ops[0], ast.Eq):
-            kinds.append(const_str(node.test.comparators[0], 'kind comparison'))
-            branches.append(node.body)
-            node = node.orelse[0] if len(node.orelse) == 1 else None
-    if len(kinds) != 2:
-        raise TranslatorError('expected `if kind == <unix>: ... elif kind == <tcp>: ...`, found %r' % (kinds,))
-    rules = unix_path_rules(branches[0])
-    tcp_keys = None
-    for n in ast.walk(ast.Module(body=branches[1], type_ignores=[])):
-        if isinstance(n, ast.Call) and is_name(n.func, 'TCP4ClientEndpoint') and len(n.args) == 3:
-            h = d_key(n.args[1])
-            pcall = n.args[2]
-            pk = d_key(pcall.args[0]) if (isinstance(pcall, ast.Call) and is_name(pcall.func, 'int')
-                                          and len(pcall.args) == 1) else None
-            if h is None or pk is None:
-                raise TranslatorError('TCP4ClientEndpoint(reactor, d[<str>], int(d[<str>])) expected')
-            tcp_keys = (h, pk)
-    if tcp_keys is None:
-        raise TranslatorError('TCP4ClientEndpoint call not found in the tcp branch')
-    words = []
-    for n in ast.walk(fn):
-        if (isinstance(n, ast.Compare) and is_name(n.left, 'busAddress') and len(n.ops) == 1
-                and isinstance(n.ops[0], ast.Eq)):
-            words.append(const_str(n.comparators[0], 'busAddress comparison'))
-    if len(words) != 2:
-        raise TranslatorError('expected `busAddress == <session>` and `busAddress == <system>`, found %r' % (words,))
-    rule_rows = ['  (%s, [%s])' % (chars(k), ', '.join(parts)) for k, parts in rules]
-    rows = []
-    for prefix, kind, strip, flag in table:
-        rows.append('  (%s, %s, %d, %s)' % (chars(prefix), chars(kind), strip,
-                                            'none' if flag is None else 'some ' + chars(flag)))
+    del ADVISORIES[:]
+    t = probe_tables()
+    sr = shape_rows()
+    if sr is None:
+        ADVISORIES.append('endpoints.getDBusEndpoints no longer has the `if c.startswith(<str>): kind = ...; c = c[<n>:]` '
+                          'chain; the transport table was derived by probing getDBusEndpoints over address strings only')
+    else:
+        probed = sorted((p, n, f) for p, _, n, f in t['rows'])
+        if sorted(sr) != probed:
+            raise TranslatorError('the startswith chain read from the source %r and the probed transport table %r disagree'
+                                  % (sorted(sr), probed))
+    rows = ['  (%s, %s, %d, %s)' % (chars(p), chars(k), n, 'none' if f is None else 'some ' + chars(f))
+            for p, k, n, f in t['rows']]
+    rule_rows = ['  (%s, [%s])' % (chars(k), ', '.join(parts)) for k, parts in t['rules']]
+    es, cs, kv = t['seps']
     return '''/- GENERATED by tools/tables/c09_endpoints.py from txdbus/endpoints.py - do not edit. -/
 namespace Txdbus.Gen.C09Endpoints
 
-/-- The `startswith` chain of the component loop, in the code's order:
-(prefix, value given to `kind`, characters stripped by `c = c[n:]`, key set to True in `d`). -/
+/-- The transport prefixes the component loop recognises:
+(prefix, value given to `kind` (canonical: unix / tcp / the prefix's name when it yields no endpoint),
+characters stripped from the component, key set to True in `d`). -/
 def prefixTable : List (List Char × List Char × Nat × Option (List Char)) := [
 %s
 ]
@@ -253,5 +353,5 @@ def componentSep : Char := '%s'
 def keyValueSep : Char := '%s'
 
 end Txdbus.Gen.C09Endpoints
-''' % (',\n'.join(rows), chars(kinds[0]), chars(kinds[1]), ',\n'.join(rule_rows), chars(tcp_keys[0]),
-       chars(tcp_keys[1]), chars(words[0]), chars(words[1]), chars(sysdef), entry_sep, comp_sep, kv_sep)
+''' % (',\n'.join(rows), chars('unix'), chars('tcp'), ',\n'.join(rule_rows), chars(t['tcp'][0]), chars(t['tcp'][1]),
+       chars(t['words']['session']), chars(t['words']['system']), chars(t['sysdef']), es, cs, kv)
